@@ -112,13 +112,17 @@ def split_call(node: ast.expr):
     """`input_step.split(sep[, maxsplit])` -> (sep, maxsplit or None)"""
     if (isinstance(node, ast.Call) and isinstance(node.func, ast.Attribute) and node.func.attr == "split"
             and isinstance(node.func.value, ast.Name) and node.func.value.id == "input_step" and 1 <= len(node.args) <= 2
-            and not node.keywords):
+            and all(kw.arg == "maxsplit" for kw in node.keywords) and len(node.args) + len(node.keywords) <= 2):
         sep = const_str(node.args[0], "split separator")
         ms = None
-        if len(node.args) == 2:
-            if not (isinstance(node.args[1], ast.Constant) and isinstance(node.args[1].value, int)):
+        extra = list(node.args[1:]) + [kw.value for kw in node.keywords]   # `split(sep, 1)` or `split(sep, maxsplit=1)`
+        if extra:
+            if isinstance(extra[0], ast.UnaryOp) and isinstance(extra[0].op, ast.USub) and isinstance(extra[0].operand, ast.Constant) \
+                    and isinstance(extra[0].operand.value, int) and not isinstance(extra[0].operand.value, bool):
+                return sep, None                                                 # a negative maxsplit: no limit
+            if not (isinstance(extra[0], ast.Constant) and isinstance(extra[0].value, int) and not isinstance(extra[0].value, bool)):
                 raise Unsupported("split maxsplit is not an integer literal")
-            ms = node.args[1].value
+            ms = extra[0].value
         return sep, ms
     raise Unsupported(f"indicator rule: expected input_step.split(...), got {ast.dump(node)[:80]}")
 
@@ -136,6 +140,8 @@ def indicator_rule():
             default = const_str(node.value, "indicator default")
         elif isinstance(node, ast.If) and any(is_indicator_target(t) for a in ast.walk(node) if isinstance(a, ast.Assign) for t in a.targets):
             t = node.test
+            if isinstance(t, ast.Compare) and len(t.ops) == 1 and isinstance(t.ops[0], ast.Eq) and isinstance(t.left, ast.Constant):
+                t = ast.Compare(left=t.comparators[0], ops=t.ops, comparators=[t.left])   # `n == len(..)` reads as `len(..) == n`
             if not (isinstance(t, ast.Compare) and len(t.ops) == 1 and isinstance(t.ops[0], ast.Eq)
                     and isinstance(t.left, ast.Call) and isinstance(t.left.func, ast.Name) and t.left.func.id == "len"
                     and isinstance(t.comparators[0], ast.Constant) and isinstance(t.comparators[0].value, int)):
@@ -161,6 +167,20 @@ def indicator_rule():
         raise Unsupported("cost_volume_confidence_run: indicator rule not found")
     rule["default"] = default
     return rule
+
+
+# step names on which CPython's own `str.split` evaluates the extracted rule; Lean's reading of the rule
+# (`Properties/C12Names.lean: evalRule`) is checked against this table when the file is built
+GOLDEN_STEPS = ["cost_volume_confidence", "cost_volume_confidence.amb", "cost_volume_confidence.a.b", "cost_volume_confidence.a.b.c",
+                "cost_volume_confidence.", "cost_volume_confidence..", ".x", "", ".", "a..b", "..", "a.b."]
+
+
+def eval_rule(r, step: str):
+    """the extracted rule run by CPython (`None`: the subscript raises IndexError)"""
+    parts = step.split(r["sep"]) if r["maxsplit"] is None else step.split(r["sep"], r["maxsplit"])
+    if len(parts) == r["len"]:
+        return r["lead"] + parts[r["index"]] if -len(parts) <= r["index"] < len(parts) else None
+    return r["default"]
 
 
 def defaults():
@@ -218,6 +238,11 @@ def render(x) -> str:
         "  deriving DecidableEq, Repr",
         "",
         f"def indicatorRule : IndicatorRule := ⟨{chars(r['sep'])}, {ms}, {r['len']}, {chars(r['lead'])}, {r['index']}, {chars(r['default'])}⟩",
+        "",
+        "/-- what CPython's `str.split` makes of that rule on a few step names (`none`: IndexError) -/",
+        "def indicatorGolden : List (List Char × Option (List Char)) := [",
+        ",\n".join(f"  ({chars(st)}, {'none' if eval_rule(r, st) is None else '(some ' + chars(eval_rule(r, st)) + ')'})" for st in GOLDEN_STEPS),
+        "]",
         "",
         "end Pandora.Generated.Confidence",
     ]
